@@ -268,6 +268,20 @@ func (w *hsWorld) passive(sub uint64) {
 		w.Fail("accept-before-ack", "", "Accept returned a connection for %d->80 before any ACK of the SYN-ACK was sent", p.PPort)
 		return
 	}
+	if r.Chance(0.15) {
+		// another port of the same host presents this handshake's numbers: it never sent a SYN, it gets no connection
+		w.nport++
+		thief := w.NewTCPPeer(w.cfg.V6, 34000+w.nport, 80, p.ISS)
+		thief.Send(codec.FlagACK, p.ISS+1, iss+1, 65535, nil, nil)
+		thief.Mine(w.Take())
+		w.Probes["final_ack_from_another_port"]++
+		if ep := w.acceptOne(); ep != nil {
+			w.Fail("connection-without-handshake", "", "port %d sent SYN and got SYN-ACK seq=%d; an ACK acknowledging %d from port %d of the same host - which never took part in a handshake - was handed a connection", p.PPort, iss, iss+1, thief.PPort)
+			ep.Close()
+			w.Settle()
+			return
+		}
+	}
 	// the final ACK
 	var delta uint32
 	kind := r.Pick(5, 5)
@@ -415,6 +429,29 @@ func (w *hsWorld) passive(sub uint64) {
 // stray episode: a segment for a port nobody is bound to.
 func (w *hsWorld) stray(sub uint64) {
 	r := sim.NewRand(sim.Mix(w.seed ^ sub))
+	if r.Chance(0.04) {
+		// a sweep: a few hundred SYNs for ports nobody listens on, all in one instant - one reset each
+		n := r.Range(120, 400)
+		w.Take()
+		for i := 0; i < n; i++ {
+			w.nport++
+			q := w.NewTCPPeer(w.cfg.V6, 33000+w.nport, uint16(2000+i%500), uint32(i)*7919+1)
+			q.NoWait = true
+			q.Send(codec.FlagSYN, q.ISS, 0, 65535, nil, nil)
+		}
+		w.Settle()
+		nrst := 0
+		for _, d := range w.Take() {
+			if d.TCP != nil && d.TCP.Flags&codec.FlagRST != 0 && d.TCP.SrcPort >= 2000 && d.TCP.SrcPort < 2500 {
+				nrst++
+			}
+		}
+		w.Probes["stray_sweeps"]++
+		if nrst != n {
+			w.Fail("stray-not-reset", "", "%d SYNs for ports without a socket arrived in one instant and drew %d resets: every segment for which no socket exists is answered by exactly one", n, nrst)
+		}
+		return
+	}
 	w.nport++
 	p := w.NewTCPPeer(w.cfg.V6, 31000+w.nport, uint16(r.Range(2000, 2010)), pickISS(r))
 	p.Mode = r.Intn(3)
